@@ -4,7 +4,7 @@ use crate::rng::{Choices, Xoshiro};
 use flac_codec::metadata::{Application, Block, Cuesheet, Padding, Picture, PictureType, SeekPoint, SeekTable, VorbisComment};
 
 const WORDS: &[&str] = &[
-    "", "a", "Title", "ARTIST", "naïve", "日本語", "🎵 music", "x=y=z", "with space", "ALBUM", "tab\there", "q",
+    "", "a", "Title", "ARTIST", "naïve", "日本語", "🎵 music", "x=y=z", "with space", "ALBUM", "tab\there", "q", "nul\0in", "line\nbreak",
 ];
 
 pub fn draw_string(ch: &Choices, max_rep: u64) -> String {
@@ -66,7 +66,7 @@ pub fn draw_picture(ch: &Choices, allow_icons: bool) -> Picture {
     let n = *ch.pick("meta.pic.n", &[0usize, 1, 16, 200, 1000]);
     Picture {
         picture_type: t,
-        media_type: (*ch.pick("meta.pic.mime", &["image/png", "image/jpeg", "", "-->"])).to_string(),
+        media_type: (*ch.pick("meta.pic.mime", &["image/png", "image/jpeg", "", "-->", "画像/png", "a\0b"])).to_string(),
         description: draw_string(ch, 3),
         width: *ch.pick("meta.pic.w", &[0u32, 1, 32, 640, u32::MAX]),
         height: *ch.pick("meta.pic.h", &[0u32, 1, 32, 480, u32::MAX]),
